@@ -456,7 +456,7 @@ func run(c *props.Ctx) {
 			c.R.Cap("time budget reached before all scenarios were explored")
 			break
 		}
-		res := seq.Explore(s, seq.Options{Depth: depth, Deadline: c.Deadline, MaxStates: 3000000})
+		res := seq.Explore(s, seq.Options{Depth: depth, Deadline: c.Deadline, MaxStates: 3000000, Classify: signature})
 		c.R.States += int64(res.States)
 		c.R.Transitions += res.Transitions
 		c.R.Evaluations += res.Transitions
